@@ -39,11 +39,14 @@ package main
 // wait that expires is recorded as a missing reply.
 
 import (
+	"bytes"
 	"context"
 	"encoding/json"
 	"fmt"
 	"net/http"
+	"runtime"
 	"sort"
+	"strconv"
 	"sync"
 	"sync/atomic"
 	"time"
@@ -130,6 +133,7 @@ type c07World struct {
 	fast     atomic.Bool
 	router   *mocrelay.RouterHandler
 	peer     string
+	det      bool // a scripted history: one operation at a time
 	ss       []*c07Session
 	mu       sync.Mutex
 	hops     []c07Op
@@ -161,12 +165,13 @@ type c07Session struct {
 	mu       sync.Mutex
 	out      []c07Msg
 	reader   c07Reader
-	sdone    atomic.Bool // the client's script is over
-	started  bool        // ServeNostr is running / has run (driver only)
-	paused   bool        // touched by the driver only
-	gone     bool        // disconnected (driver only)
-	dead     bool        // a wait expired on this session (driver / its own client only)
-	pend     *c07Op      // handed over while the reader was paused; its reply has not been read (driver / its own client only)
+	sdone    atomic.Bool  // the client's script is over
+	started  bool         // ServeNostr is running / has run (driver only)
+	paused   bool         // touched by the driver / its own client only
+	gone     bool         // disconnected (driver only)
+	dead     bool         // a wait expired on this session (driver / its own client only)
+	gid      atomic.Int64 // the goroutine that runs the session's ServeNostr
+	pend     *c07Op       // handed over while the reader was paused; its reply has not been read (driver / its own client only)
 }
 
 func c07ToMsg(m mocrelay.ServerMsg, st int64) c07Msg {
@@ -215,7 +220,10 @@ func (s *c07Session) start() {
 		return
 	}
 	s.started = true
-	go func() { s.done <- s.w.router.ServeNostr(s.ctx, s.send, s.recv) }()
+	go func() {
+		s.gid.Store(c07GoID())
+		s.done <- s.w.router.ServeNostr(s.ctx, s.send, s.recv)
+	}()
 	go s.readLoop()
 }
 
@@ -378,6 +386,97 @@ func (s *c07Session) execCut(op c07Op) {
 	w.addHop(dh)
 }
 
+// c07GoID: the id of the calling goroutine, as goroutine dumps print it.
+func c07GoID() int64 {
+	var b [64]byte
+	n := runtime.Stack(b[:], false)
+	f := bytes.Fields(b[:n])
+	if len(f) < 2 {
+		return 0
+	}
+	id, _ := strconv.ParseInt(string(f[1]), 10, 64)
+	return id
+}
+
+var c07SawNoPark atomic.Bool
+
+// awaitBlocked waits (bounded) until the goroutine that runs the session's
+// ServeNostr is parked somewhere inside the handling of a message -- i.e. not
+// running, and not in ServeNostr's own select, where it waits for the next
+// message.  An operation handed over while the client is not reading has no
+// reply the driver could wait for; a session that is parked below ServeNostr
+// has taken the message, done its work on the registry and cannot hand over
+// the reply, so what the next operation of the script finds does not depend on
+// how fast that goroutine was scheduled.  This is a scheduling aid of the
+// deterministic layer only (like settle): nothing is recorded, no verdict is
+// taken, and when the goroutine is not seen parked in time the script goes on.
+func (s *c07Session) awaitBlocked() {
+	gid := s.gid.Load()
+	if gid == 0 {
+		return
+	}
+	wait := 2 * time.Second
+	if c07SawNoPark.Load() || c07SawStuck.Load() {
+		wait = 20 * time.Millisecond
+	}
+	key := []byte(fmt.Sprintf("goroutine %d [", gid))
+	buf := make([]byte, 1<<18)
+	t0 := time.Now()
+	for {
+		runtime.Gosched()
+		n := runtime.Stack(buf, true)
+		for n == len(buf) && len(buf) < 1<<24 {
+			buf = make([]byte, 4*len(buf))
+			n = runtime.Stack(buf, true)
+		}
+		if c07ParkedBelowServe(buf[:n], key) {
+			return
+		}
+		if time.Since(t0) > wait {
+			c07SawNoPark.Store(true)
+			return
+		}
+		time.Sleep(50 * time.Microsecond)
+	}
+}
+
+// c07ParkedBelowServe reads one goroutine's entry of a dump: "goroutine N [state]:" and the innermost frame.
+func c07ParkedBelowServe(dump, key []byte) bool {
+	i := 0
+	for {
+		j := bytes.Index(dump[i:], key)
+		if j < 0 {
+			return false
+		}
+		i += j
+		if i == 0 || dump[i-1] == '\n' {
+			break
+		}
+		i += len(key)
+	}
+	rest := dump[i+len(key):]
+	j := bytes.IndexByte(rest, ']')
+	if j < 0 {
+		return false
+	}
+	state := rest[:j]
+	for _, p := range []string{"running", "runnable", "syscall"} {
+		if bytes.HasPrefix(state, []byte(p)) {
+			return false
+		}
+	}
+	rest = rest[j:]
+	j = bytes.IndexByte(rest, '\n')
+	if j < 0 {
+		return false
+	}
+	frame := rest[j+1:]
+	if k := bytes.IndexByte(frame, '\n'); k >= 0 {
+		frame = frame[:k]
+	}
+	return len(frame) > 0 && !bytes.Contains(frame, []byte(".ServeNostr("))
+}
+
 // execPending hands one operation to the relay while the client is not
 // reading, and does not wait for the reply: the session's receive loop takes
 // the message, does its registry work and then blocks handing over the reply
@@ -409,6 +508,9 @@ func (s *c07Session) execPending(op c07Op) {
 		return
 	}
 	s.pend = &h
+	if w.det {
+		s.awaitBlocked()
+	}
 }
 
 // collectPending: the reader reads again, so the reply to the operation in
@@ -744,6 +846,7 @@ func c07NewWorld(c *c07Case) *c07World {
 // ---- deterministic layer
 func c07RunDet(c *c07Case) {
 	w := c07NewWorld(c)
+	w.det = true
 	for _, op := range c.Script {
 		if w.stuck.Load() {
 			break
@@ -946,7 +1049,7 @@ func c07GenDet(r *common.Rand) c07Case {
 		if !paused[x] {
 			return false
 		}
-		if pend[x] || !r.Chance(45) {
+		if pend[x] || !r.Chance(30) {
 			return true
 		}
 		pend[x] = true
